@@ -22,6 +22,7 @@ type Out struct {
 	GPanic string // a panic that reached the top of a library goroutine
 	InNew  bool   // Err / Panic happened in New
 	Res    *vrt.Result
+	q      *genql.Query
 	First  string   // with ReExec: the first result, rendered
 	Again  []string // with ReExec: the results of the second and third Exec of the same Query
 }
@@ -62,10 +63,14 @@ func RunCfg(cfg vrt.Config, prefix []int32, doc map[string]any, sql string, opts
 	}
 	o := &Out{}
 	// the usage differential belongs to plain sequential runs, not to explored executions
-	usageOff = cfg.Sched || cfg.MapOrder
 	o.Res = vrt.Run(cfg, prefix, func() { Call(o, doc, sql, opts...) })
-	usageOff = false
 	o.GPanic = o.Res.GPanic
+	if Usage != nil && !inUsage && !(cfg.Sched || cfg.MapOrder) && o.q != nil && o.Err == nil && o.Panic == "" && o.GPanic == "" {
+		inUsage = true
+		usageChecks(o, doc, sql, opts)
+		inUsage = false
+	}
+	o.q = nil
 	return o
 }
 
@@ -89,14 +94,7 @@ func Call(o *Out, doc map[string]any, sql string, opts ...genql.QueryOption) {
 	stage = 1
 	rows, err := q.Exec()
 	o.Rows, o.Err = rows, err
-	if Usage != nil && err == nil && !inUsage && !usageOff {
-		inUsage = true
-		usageChecks(q, doc, sql, rows, opts)
-		inUsage = false
-		// the caller gets an untouched result: the first one was edited on purpose
-		rows, err = q.Exec()
-		o.Rows, o.Err = rows, err
-	}
+	o.q = q
 	if ReExec && err == nil {
 		// the same Query object executed again (and again): rendered results of the repetitions
 		first := Render(rows)
@@ -122,7 +120,7 @@ func Call(o *Out, doc map[string]any, sql string, opts ...genql.QueryOption) {
 //     (the exported pieces New is made of) - built twice from one parsed statement, executed on
 //     fresh copies of the document.
 var Usage func(what string)
-var inUsage, usageOff bool
+var inUsage bool
 
 // sameResult compares two rendered results: as sequences, or - for joins, whose row order is not
 // fixed - as multisets of rows.
@@ -156,48 +154,125 @@ func scribble(rows []any) {
 	}
 }
 
-func usageChecks(q *genql.Query, doc map[string]any, sql string, rows []any, opts []genql.QueryOption) {
-	defer func() {
-		if r := recover(); r != nil {
-			Usage(fmt.Sprintf("%s: panic during the usage differential: %v", sql, r))
+func usageChecks(o *Out, doc map[string]any, sql string, opts []genql.QueryOption) {
+	// every phase is a controlled run of its own (a run has a bounded number of threads)
+	phase := func(f func()) {
+		res := vrt.Run(Seq, nil, func() {
+			defer func() {
+				if r := recover(); r != nil {
+					Usage(fmt.Sprintf("%s: panic during the usage differential: %v", sql, r))
+				}
+			}()
+			f()
+		})
+		if res.GPanic != "" {
+			Usage(fmt.Sprintf("%s: panic in a library goroutine during the usage differential: %s", sql, res.GPanic))
 		}
-	}()
+	}
+	q, rows := o.q, o.Rows
 	first := Render(rows)
 	firstRows, _ := Clone(any(rows)).([]any)
-	before := Snapshot(doc)
-	scribble(rows)
-	if d := before.Diff(doc); d != "" {
-		Usage(fmt.Sprintf("%s: editing the rows of the result changed the document: %s", sql, d))
-		return
-	}
-	rows2, err2 := q.Exec()
-	if err2 != nil {
-		Usage(fmt.Sprintf("%s: the same Query executed again (after the first result had been edited by the caller) failed: %v; the first Exec returned %s", sql, err2, first))
-		return
-	}
-	if again := Render(rows2); !sameResult(sql, rows2, firstRows) {
-		Usage(fmt.Sprintf("%s: the same Query executed again (after the first result had been edited by the caller) returned %s; the first Exec returned %s", sql, again, first))
-		return
-	}
-	if len(opts) != 0 {
+	ok := true
+	phase(func() {
+		before := Snapshot(doc)
+		scribble(rows)
+		if d := before.Diff(doc); d != "" {
+			Usage(fmt.Sprintf("%s: editing the rows of the result changed the document: %s", sql, d))
+			ok = false
+			return
+		}
+		rows2, err2 := q.Exec()
+		// the caller gets an untouched result: the first one was edited on purpose
+		o.Rows = rows2
+		if err2 != nil {
+			Usage(fmt.Sprintf("%s: the same Query executed again (after the first result had been edited by the caller) failed: %v; the first Exec returned %s", sql, err2, first))
+			ok = false
+			return
+		}
+		if !sameResult(sql, rows2, firstRows) {
+			Usage(fmt.Sprintf("%s: the same Query executed again (after the first result had been edited by the caller) returned %s; the first Exec returned %s", sql, Render(rows2), first))
+			ok = false
+		}
+	})
+	if !ok || len(opts) != 0 {
 		return
 	}
 	stmt, err := genql.Parse(sql)
 	if err != nil {
 		return
 	}
-	for k := 0; k < 2; k++ {
-		pq, err := genql.Prepare(CloneMap(doc), stmt, &genql.Options{})
-		if err != nil {
-			Usage(fmt.Sprintf("%s: built through Parse + Prepare(doc, stmt, &Options{}) (build #%d from one parsed statement) fails: %v; New + Exec returns %s", sql, k+1, err, first))
-			return
-		}
-		prow, perr := pq.Exec()
-		if perr != nil || !sameResult(sql, prow, firstRows) {
-			Usage(fmt.Sprintf("%s: built through Parse + Prepare(doc, stmt, &Options{}) (build #%d from one parsed statement) returns %s (%v); New + Exec returns %s", sql, k+1, Render(prow), perr, first))
-			return
+	for k := 0; k < 2 && ok; k++ {
+		phase(func() {
+			pdoc := CloneMap(doc)
+			psnap := Snapshot(pdoc)
+			pq, err := genql.Prepare(pdoc, stmt, &genql.Options{})
+			if d := psnap.Diff(pdoc); d != "" {
+				Usage(fmt.Sprintf("%s: Parse + Prepare(doc, stmt, &Options{}) changed the document: %s", sql, d))
+				ok = false
+				return
+			}
+			if err != nil {
+				Usage(fmt.Sprintf("%s: built through Parse + Prepare(doc, stmt, &Options{}) (build #%d from one parsed statement) fails: %v; New + Exec returns %s", sql, k+1, err, first))
+				ok = false
+				return
+			}
+			prow, perr := pq.Exec()
+			if perr != nil || !sameResult(sql, prow, firstRows) {
+				Usage(fmt.Sprintf("%s: built through Parse + Prepare(doc, stmt, &Options{}) (build #%d from one parsed statement) returns %s (%v); New + Exec returns %s", sql, k+1, Render(prow), perr, first))
+				ok = false
+				return
+			}
+			if d := psnap.Diff(pdoc); d != "" {
+				Usage(fmt.Sprintf("%s: Parse + Prepare(doc, stmt, &Options{}) + Exec changed the document: %s", sql, d))
+				ok = false
+			}
+		})
+	}
+	if !ok {
+		return
+	}
+	// one Options value and one parsed statement, two different documents (the second one: every
+	// top-level array reversed): the second query answers for its own document
+	other := CloneMap(doc)
+	for _, v := range other {
+		if a, isArr := v.([]any); isArr {
+			for i, j := 0, len(a)-1; i < j; i, j = i+1, j-1 {
+				a[i], a[j] = a[j], a[i]
+			}
 		}
 	}
+	var frows []any
+	phase(func() {
+		fresh, ferr := genql.New(CloneMap(other), sql)
+		if ferr != nil {
+			ok = false
+			return
+		}
+		frows, ferr = fresh.Exec()
+		if ferr != nil {
+			ok = false
+		}
+	})
+	if !ok {
+		return
+	}
+	shared := &genql.Options{}
+	phase(func() {
+		if pq, err := genql.Prepare(CloneMap(doc), stmt, shared); err == nil {
+			pq.Exec()
+		}
+	})
+	phase(func() {
+		pq2, err := genql.Prepare(CloneMap(other), stmt, shared)
+		if err != nil {
+			Usage(fmt.Sprintf("%s: Prepare with an Options value already used for another document fails: %v", sql, err))
+			return
+		}
+		prow2, perr2 := pq2.Exec()
+		if perr2 != nil || !sameResult(sql, prow2, frows) {
+			Usage(fmt.Sprintf("%s: Parse + Prepare with an Options value (and parsed statement) already used for another document returns %s (%v); a fresh query on that document returns %s", sql, Render(prow2), perr2, Render(frows)))
+		}
+	})
 }
 
 // ReExec makes Call execute every successfully executed Query object two more times; Out.First and
